@@ -294,7 +294,7 @@ class Gen(object):
             mname = 'f%d' % i
             r = rng.random()
             fixed_only = None
-            if r < 0.30:
+            if r < 0.26:
                 if not want_dynamic:
                     t = self.pick_type(s, fixed_only)
                 elif last and self.greedy:
@@ -304,21 +304,21 @@ class Gen(object):
                 members.append(Member(mname, t))
                 if t in INTS:
                     int_fields.append(mname)
-            elif r < 0.42:
+            elif r < 0.36:
                 members.append(Member(mname, rng.choice(self.prims())))
                 if members[-1].type in INTS:
                     int_fields.append(mname)
-            elif r < 0.60:
+            elif r < 0.52:
                 # optionals: biased towards small and 8-byte values
                 t = rng.choice(['u8', 'u16', 'u64', 'i8']) if rng.random() < 0.5 else self.pick_type(s, fixed_only)
                 members.append(Member(mname, t, 'optional'))
-            elif r < 0.70:
+            elif r < 0.60:
                 t = 'byte' if rng.random() < 0.25 else self.pick_type(s, fixed_only)
                 members.append(Member(mname, t, 'fixed', size=self.size_expr()))
-            elif r < 0.78:
+            elif r < 0.68:
                 t = 'byte' if rng.random() < 0.25 else self.pick_type(s, fixed_only)
                 members.append(Member(mname, t, 'limited', size=self.size_expr()))
-            elif want_dynamic and r < 0.90:
+            elif want_dynamic and r < 0.88:
                 t = 'byte' if rng.random() < 0.2 else self.pick_type(s, lambda k: k != UNLIMITED)
                 if self.ext_sizers and int_fields and rng.random() < 0.35:
                     cands = int_fields if self.shared_sizers else [f for f in int_fields if f not in used_sizers]
